@@ -1,3 +1,4 @@
+import Sylvia.Model.RustSem
 /-! Declarations of the foreign (cosmwasm_std) types that translated runtime-library functions build. Hand-written and
 trusted to mirror cosmwasm-std 2.2: the instantiate, execute and admin variants of `WasmMsg`, field for field. `Binary` and `Coin` are opaque. -/
 namespace RustExtern
@@ -101,3 +102,60 @@ def Response.add_attributes (r : Response X T) (as : List X.Attribute) : Respons
 def fmt (template : String) : String := template
 
 end RustExtern
+
+/-! ## The part of `syn`'s syntax tree that `StripInput` (sylvia-derive/src/fold.rs) reads and rebuilds
+
+Hand-written and trusted: an item, its methods, their signatures and parameters, each with its attribute list and an opaque rest
+(`R`: visibility, names, generics, types, bodies, non-method items). `fold::fold_*` are syn's generated default folds: they rebuild
+the node from its folded children; on this view the only children that `StripInput` overrides a fold for are the methods of an item.
+Nested `impl` blocks inside method bodies are outside the view. -/
+namespace RustExtern.Syn
+
+structure Receiver (Attr R : Type) where
+  attrs : List Attr
+  rest : R
+
+structure PatType (Attr R : Type) where
+  attrs : List Attr
+  rest : R
+
+inductive FnArg (Attr R : Type) where
+  | Receiver (a : Receiver Attr R)
+  | Typed (a : PatType Attr R)
+
+structure Signature (Attr R : Type) where
+  inputs : List (FnArg Attr R)
+  rest : R
+
+structure ImplItemFn (Attr R : Type) where
+  attrs : List Attr
+  sig : Signature Attr R
+  rest : R
+
+structure TraitItemFn (Attr R : Type) where
+  attrs : List Attr
+  sig : Signature Attr R
+  rest : R
+
+structure ItemImpl (Attr R : Type) where
+  attrs : List Attr
+  items : List (ImplItemFn Attr R)
+  rest : R
+
+structure ItemTrait (Attr R : Type) where
+  attrs : List Attr
+  items : List (TraitItemFn Attr R)
+  rest : R
+
+variable {Attr R F : Type}
+
+/-- `fold::fold_impl_item_fn(folder, node)`: no child of a method has an overridden fold -/
+def fold_impl_item_fn (_folder : F) (i : ImplItemFn Attr R) : RustSem.Res (ImplItemFn Attr R) := .ok i
+def fold_trait_item_fn (_folder : F) (i : TraitItemFn Attr R) : RustSem.Res (TraitItemFn Attr R) := .ok i
+/-- `fold::fold_item_impl(folder, node)`: every method goes through the folder's `fold_impl_item_fn`, in order -/
+def fold_item_impl (visit : ImplItemFn Attr R → RustSem.Res (ImplItemFn Attr R)) (i : ItemImpl Attr R) : RustSem.Res (ItemImpl Attr R) :=
+  (RustSem.mapRes visit i.items).bind fun items => .ok { i with items := items }
+def fold_item_trait (visit : TraitItemFn Attr R → RustSem.Res (TraitItemFn Attr R)) (i : ItemTrait Attr R) : RustSem.Res (ItemTrait Attr R) :=
+  (RustSem.mapRes visit i.items).bind fun items => .ok { i with items := items }
+
+end RustExtern.Syn
